@@ -368,7 +368,14 @@ int main(void) {
       Length one = {1, {0, 1}};
       Subtree big = ts_subtree_new_leaf(&pool, 300, one, one, 0, 3, false, false, false, &wide);
       Subtree ext = ts_subtree_new_leaf(&pool, 1, one, one, 0, 3, true, false, false, &fake);
-      printf("bits inline=%d pb=%u pr=%u pc=%u sb=%u la=%u links=%u maxlinks=%u sym300inline=%d sym300rb=%u extinline=%d\n",
+      // a query step holds at most MAX_STEP_CAPTURE_COUNT capture ids: further ones are dropped, the
+      // neighbouring fields of the step (depth, …) stay what they were
+      QueryStep qs = query_step__new(5, 7, false);
+      for (uint16_t c = 1; c <= 6; c++) query_step__add_capture(&qs, c);
+      printf("bits capslots=%u maxcaps=%u caps=%u,%u,%u stepdepth=%u stepsym=%u stepalt=%u ",
+             (unsigned)(sizeof(qs.capture_ids) / sizeof(qs.capture_ids[0])), (unsigned)MAX_STEP_CAPTURE_COUNT,
+             qs.capture_ids[0], qs.capture_ids[1], qs.capture_ids[MAX_STEP_CAPTURE_COUNT - 1], qs.depth, qs.symbol, qs.alternative_index == NONE);
+      printf("inline=%d pb=%u pr=%u pc=%u sb=%u la=%u links=%u maxlinks=%u sym300inline=%d sym300rb=%u extinline=%d\n",
              ones.data.is_inline ? 1 : 0, p.bytes, p.extent.row, p.extent.column, sz.bytes, ts_subtree_lookahead_bytes(ones),
              (unsigned)(sizeof(((StackNode *)0)->links) / sizeof(StackLink)), (unsigned)MAX_LINK_COUNT,
              big.data.is_inline ? 1 : 0, (unsigned)ts_subtree_symbol(big), ext.data.is_inline ? 1 : 0);
